@@ -359,6 +359,24 @@ func c08Run(c *engine.Ctx) {
 			geoms = append(geoms, &ref.G{Kind: ref.Collection, Kids: []*ref.G{{Kind: ref.Collection, Kids: []*ref.G{g}}, members[3]}})
 		}
 	}
+	// large geometries: the extreme values sit in the middle of long coordinate arrays
+	for _, l := range ref.LayoutsAll {
+		for _, n := range []int{50, 500, 5000} {
+			f := wobble()
+			g := ref.NewLine(ref.LineString, l, n, f)
+			for d := 0; d < l.Stride(); d++ {
+				g.C1[n/2+d][d] = ref.F(1e6 + float64(d))
+				g.C1[n/3+d][d] = ref.F(-1e6 - float64(d))
+			}
+			geoms = append(geoms, g)
+			sizes := make([]int, n/10)
+			for i := range sizes {
+				sizes[i] = (i * 7) % 4
+			}
+			mp := ref.NewParts(ref.MultiLineString, l, sizes, wobble())
+			geoms = append(geoms, mp)
+		}
+	}
 	c.Note("geometries", len(geoms))
 	c.Parallel(len(geoms), func(i int) { c08Exec(c, c08Case{Mode: "geom", G: geoms[i]}, nil) })
 
